@@ -399,12 +399,30 @@ func ruleFrameRestore(p *Program, r *Reporter) {
 		return
 	}
 	ss := swapSet(p, a.vmRun)
+	res := runReentries(p, a.vmRun)
+	// a function that re-enters the interpreter may do the swap itself: the
+	// VM fields it stores before the re-entry count too
+	for _, re := range res {
+		if re.fn == a.vmRun {
+			continue
+		}
+		for _, b := range re.fn.Blocks {
+			for _, ins := range b.Instrs {
+				st, ok := ins.(*ssa.Store)
+				if !ok || !dominatesInstr(st, re.call.(ssa.Instruction)) {
+					continue
+				}
+				if n, f, ok := fieldOf(st.Addr); ok && n != nil && n.Obj().Name() == "VM" && !counterLike(st) {
+					ss[f] = st
+				}
+			}
+		}
+	}
 	var fields []string
 	for f := range ss {
 		fields = append(fields, f)
 	}
 	sort.Strings(fields)
-	res := runReentries(p, a.vmRun)
 	if len(fields) == 0 {
 		r.OkNT("no VM field is swapped for a call", p.Pos(a.vmRun.Pos()), "nothing to restore")
 		return
@@ -452,8 +470,14 @@ func ruleFrameRestore(p *Program, r *Reporter) {
 						for _, o := range outerOrigins(st.Val) {
 							if fv, isFV := o.(*ssa.FreeVar); isFV {
 								// which variable of re.fn is captured?
-								paramIdx = capturedParam(re.fn, body, fv)
-								ok = true
+								if pi := capturedParam(re.fn, body, fv); pi >= 0 {
+									paramIdx = pi
+									ok = true
+								} else if savedBeforeSwap(re.fn, body, fv, f) {
+									// a local of re.fn that holds what the field held
+									// before re.fn itself overwrote it
+									ok = true
+								}
 							}
 							if _, isP := o.(*ssa.Parameter); isP {
 								ok = true
@@ -502,6 +526,76 @@ func ruleFrameRestore(p *Program, r *Reporter) {
 	}
 }
 
+// counterLike: the store writes the field's own value plus or minus a constant
+// (a counter of calls in progress is not a swapped frame).
+func counterLike(st *ssa.Store) bool {
+	bo, ok := st.Val.(*ssa.BinOp)
+	if !ok || (bo.Op != token.ADD && bo.Op != token.SUB) {
+		return false
+	}
+	ld, ok := bo.X.(*ssa.UnOp)
+	if !ok || ld.Op != token.MUL {
+		return false
+	}
+	fa1, ok1 := ld.X.(*ssa.FieldAddr)
+	fa2, ok2 := st.Addr.(*ssa.FieldAddr)
+	_, isC := bo.Y.(*ssa.Const)
+	return ok1 && ok2 && isC && fa1.X == fa2.X && fa1.Field == fa2.Field
+}
+
+// savedBeforeSwap: the closure's free variable fv is a local of fn whose only
+// value is a read of VM.<field> made before any store to that field in fn.
+func savedBeforeSwap(fn, closure *ssa.Function, fv *ssa.FreeVar, field string) bool {
+	idx := -1
+	for i, f := range closure.FreeVars {
+		if f == fv {
+			idx = i
+		}
+	}
+	if idx < 0 {
+		return false
+	}
+	for _, b := range fn.Blocks {
+		for _, ins := range b.Instrs {
+			mc, ok := ins.(*ssa.MakeClosure)
+			if !ok || mc.Fn != closure || idx >= len(mc.Bindings) {
+				continue
+			}
+			al, ok := mc.Bindings[idx].(*ssa.Alloc)
+			if !ok {
+				return false
+			}
+			n := 0
+			for _, ref := range *al.Referrers() {
+				st, ok := ref.(*ssa.Store)
+				if !ok || st.Addr != ssa.Value(al) {
+					continue
+				}
+				n++
+				ld, ok := st.Val.(*ssa.UnOp)
+				if !ok || ld.Op != token.MUL {
+					return false
+				}
+				if nm, ff, ok := fieldOf(ld.X); !ok || nm == nil || nm.Obj().Name() != "VM" || ff != field {
+					return false
+				}
+				// no store to the field before the read
+				for _, b2 := range fn.Blocks {
+					for _, i2 := range b2.Instrs {
+						if s2, ok := i2.(*ssa.Store); ok {
+							if nm, ff, ok := fieldOf(s2.Addr); ok && nm != nil && nm.Obj().Name() == "VM" && ff == field && dominatesInstr(s2, ld) {
+								return false
+							}
+						}
+					}
+				}
+			}
+			return n == 1
+		}
+	}
+	return false
+}
+
 // capturedParam: index (in fn.Params) of the parameter that the closure's free
 // variable fv captures; -1 if it is not a parameter.
 func capturedParam(fn, closure *ssa.Function, fv *ssa.FreeVar) int {
@@ -543,6 +637,53 @@ func capturedParam(fn, closure *ssa.Function, fv *ssa.FreeVar) int {
 	return -1
 }
 
+// depthReadBeforeOpen: the closure's free variable is a local of fn whose only
+// value is a reading of the scope depth made before fn opens any scope.
+func depthReadBeforeOpen(p *Program, er *envRoles, fn, closure *ssa.Function, fv *ssa.FreeVar) (bool, string) {
+	idx := -1
+	for i, f := range closure.FreeVars {
+		if f == fv {
+			idx = i
+		}
+	}
+	if idx < 0 {
+		return false, ""
+	}
+	for _, b := range fn.Blocks {
+		for _, ins := range b.Instrs {
+			mc, ok := ins.(*ssa.MakeClosure)
+			if !ok || mc.Fn != closure || idx >= len(mc.Bindings) {
+				continue
+			}
+			al, ok := mc.Bindings[idx].(*ssa.Alloc)
+			if !ok {
+				return false, ""
+			}
+			n := 0
+			for _, ref := range *al.Referrers() {
+				st, ok := ref.(*ssa.Store)
+				if !ok || st.Addr != ssa.Value(al) {
+					continue
+				}
+				n++
+				dc, ok := st.Val.(*ssa.Call)
+				if !ok || dc.Call.StaticCallee() != er.depth {
+					return false, "the depth restored is not a reading of the scope depth"
+				}
+				for _, opener := range scopeOpeners(p, er) {
+					for _, open := range callsTo(fn, opener) {
+						if !dominatesInstr(dc, open.(ssa.Instruction)) {
+							return false, "the scope depth is read (" + p.Pos(dc.Pos()) + ") after the callee's scope was opened (" + p.Pos(open.Pos()) + "): that scope survives the call"
+						}
+					}
+				}
+			}
+			return n == 1, ""
+		}
+	}
+	return false, ""
+}
+
 // ---------------------------------------------------------------------------
 // R-SCOPERESTORE / R-SCOPEPAIR / R-BINDINNER
 
@@ -571,12 +712,18 @@ func ruleScopeRestore(p *Program, r *Reporter) {
 			continue
 		}
 		paramIdx, found := -1, false
+		localOK, localWhy := false, ""
 		for _, body := range deferredBodies(re.fn, re.call) {
 			for _, c := range callsTo(body, er.truncate) {
 				found = true
 				for _, o := range outerOrigins(c.Common().Args[1]) {
 					if fv, ok := o.(*ssa.FreeVar); ok {
 						paramIdx = capturedParam(re.fn, body, fv)
+						if paramIdx < 0 {
+							// a local of the re-entering function: the depth it read
+							// itself, before it opened the callee's scope
+							localOK, localWhy = depthReadBeforeOpen(p, er, re.fn, body, fv)
+						}
 					}
 				}
 			}
@@ -586,6 +733,9 @@ func ruleScopeRestore(p *Program, r *Reporter) {
 			continue
 		}
 		good, why := paramIdx >= 0, "the depth restored is not a value handed in by the caller"
+		if paramIdx < 0 && (localOK || localWhy != "") {
+			good, why = localOK, localWhy
+		}
 		if paramIdx >= 0 {
 			for _, caller := range p.LibFns {
 				for _, c := range callsTo(caller, re.fn) {
@@ -677,6 +827,14 @@ func ruleScopePair(p *Program, r *Reporter) {
 				for _, open := range callsTo(run, opener) {
 					if dominatesInstr(open, site) && outerCase(p, run, open.Pos()) == outerCase(p, run, site.Pos()) {
 						opened = true
+					}
+				}
+				// or the function that re-enters opens it itself, before it does
+				if re.fn != run {
+					for _, open := range callsTo(re.fn, opener) {
+						if dominatesInstr(open, re.call.(ssa.Instruction)) {
+							opened = true
+						}
 					}
 				}
 			}
